@@ -103,6 +103,11 @@ func C14(c *core.Ctx) {
 		"distinct = compaction shapes observed (level pair, top/bottom counts) and (options, mode) pairs")
 	work := c.WorkDir()
 	defer os.RemoveAll(work)
+	// drop scripts on layouts with many small tables per level (multi-prefix DropPrefix rewrites groups
+	// of tables on every level); the structure validator runs after every such drop and after re-open
+	for j := 0; j < c.Pick(4, 30); j++ {
+		c29SeqSig(c, work, 3*j+1, "C14")
+	}
 	r := c.Rand("c14")
 	sr := &shapeRec{shapes: map[string]int{}}
 	installShapeHook(sr)
